@@ -106,6 +106,13 @@ func checkC09(c *vh.Ctx) {
 				o.Scenario = c09Scenarios[(j/12+round+si)%5]
 				o.AutoHarvest = c.Rng.Chance(0.25)
 				o.Followers = c.Rng.Intn(3)
+				if (j/5)%6 == 2 {
+					// the claimed annual crop follows a ley (permanent crops themselves are not claimed) and / or is cut green
+					o.AfterLey = []string{"GR", "AA"}[(j/30)%2]
+					o.EarlyCut = (j/60)%2 == 0
+				} else if (j/5)%6 == 4 {
+					o.EarlyCut = true
+				}
 				c09Run(c, fmt.Sprintf("c%d", k), o, corr)
 				k++
 			}
@@ -388,6 +395,11 @@ func c09RunProject(c *vh.Ctx, p *proj.Project, o proj.CropOpt, corr *c09Corr) {
 				last = nil
 				return
 			}
+			if code == "GR" || code == "AA" {
+				c.Count("day:permanent-crop(not claimed)")
+				last = nil
+				return
+			}
 			post := snapCrop(g, l, zeit)
 			post.Crop = code
 			if upstream != "" {
@@ -507,6 +519,10 @@ func c09CropFile(c *vh.Ctx, p *proj.Project, o proj.CropOpt, file string, sowDay
 		rec++
 		akf := rec // records are written in harvest order; AKF index 0 is the pre-crop (no record)
 		c.Count("cropfile:record")
+		if code == "GR" || code == "AA" {
+			c.Count("cropfile:record:permanent-crop(not claimed)")
+			continue
+		}
 		viol := func(sig, what string) {
 			c.Violate("search", sig, fmt.Sprintf("%s (crop result record %d: %s)", what, rec, strings.TrimSpace(ln)), replay(nil, nil, what+" | record: "+ln))
 		}
